@@ -2,6 +2,7 @@ package checks
 
 import (
 	"fmt"
+	"path/filepath"
 
 	"pvh/internal/core"
 	"pvh/internal/crashfs"
@@ -57,6 +58,7 @@ func runC09(c *core.Ctx) {
 	var base crashfs.Image
 	var adm []core.State
 	afterRecovery := c.Case%4 == 2
+	var retryKey, retryVal []byte
 	if afterRecovery {
 		p0 := histParams{NOps: 30 + rng.Intn(40), LiveCheck: false, SyncPct: 5, CompactPct: 8}
 		hb0, err := genHistory(c, rng, nil, nil, cfg, ks, p0, &valIdx)
@@ -66,6 +68,39 @@ func runC09(c *core.Ctx) {
 		}
 		base = hb0.Env.Crash.Snapshot() // process-crash image while open: lock file present
 		adm = []core.State{hb0.Ref.Clone()}
+		if c.Case%8 == 2 {
+			// The last Put before the failure kept its length but lost its bytes (the file size reached the disk, the data
+			// did not): recovery discards the record and truncates; the first call of the session retries the same Put, which
+			// brings the segment back to exactly the size it had on disk, and some of these sessions Close right away
+			// (seeded/R6-C09-m2: fsync skipped when the size equals the size found at open).
+			retryKey = ks.Keys[rng.Intn(len(ks.Keys))]
+			valIdx++
+			retryVal = core.MakeVal(valIdx, []int{10, 100, 300}[rng.Intn(3)])
+			before := base
+			hb0.LiveCheck = false
+			hb0.Put(retryKey, retryVal)
+			if hb0.Failed != "" {
+				c.Violation("live-mismatch", "setup history failed: "+hb0.Failed, nil)
+				return
+			}
+			after := hb0.Env.Crash.Snapshot()
+			for n, d := range after {
+				if filepath.Ext(n) != ".psg" {
+					continue
+				}
+				from := len(before[n])
+				if _, ok := before[n]; !ok {
+					from = 512
+				}
+				for i := from; i < len(d); i++ {
+					d[i] = 0
+				}
+				if from < len(d) {
+					c.Stat("sessions_retrying_a_lost_put", 1)
+				}
+			}
+			base = after
+		}
 	}
 	hb, err := core.NewHB(c, base, cfg, ks.Keys, adm)
 	if err != nil {
@@ -113,6 +148,12 @@ func runC09(c *core.Ctx) {
 	}
 	if c.Case%5 == 0 && !afterRecovery {
 		doClose() // Close of an empty database
+	}
+	if retryKey != nil {
+		hb.Put(retryKey, retryVal)
+		if rng.Intn(3) != 0 && hb.Failed == "" {
+			doClose()
+		}
 	}
 	ncycles := 2 + rng.Intn(4)
 	for cy := 0; cy < ncycles && hb.Failed == ""; cy++ {
